@@ -292,3 +292,112 @@ def clean_tail_read(rng):
     seq = seq[:-4] + "".join(rng.choice("CGT") for _ in range(4)) + "A" * k
     cig.append([S, k])
     return seq, cig
+
+
+# ------------------------------------------------------------------------------------------------
+# boundary inputs for the window scan (find_polya) and the two tail finders: windows exactly at / one below the
+# count threshold, the window that ends exactly at the end of the sequence (never accepted by the code), sequences
+# shorter than / as long as the window, lower case, N
+
+def place(rng, n, k, no_pairs=False):
+    """n flags with exactly k set; `no_pairs`: no two adjacent set flags when that is possible"""
+    k = max(0, min(n, k))
+    if no_pairs and 2 * k <= n + 1:
+        idx = set(range(0, 2 * k, 2))
+        shift = rng.randint(0, n - (2 * k - 1)) if k else 0
+        idx = {i + shift for i in idx}
+    else:
+        idx = set(rng.sample(range(n), k))
+    return [i in idx for i in range(n)]
+
+
+def threshold_flags(rng, w, c):
+    """(flags, tag): a flag list for find_polya(window w, count c) built around one window whose count is c-1, c or
+    c+1, placed at the start, as the last accepted window (start len-w-1), as the excluded last window (start
+    len-w) or in the middle; the background holds no dense window unless the tag says so"""
+    kind = rng.choice(["short", "exact_len", "one_more", "first", "last_accepted", "last_excluded", "middle", "two"])
+    delta = rng.choice([-1, 0, 0, 1])
+    k = max(0, min(w, c + delta))
+    no_pairs = rng.random() < 0.3
+    win = place(rng, w, k, no_pairs)
+    bg = lambda n: place(rng, n, rng.choice([0, 0, n // 4]) if n else 0)
+    if kind == "short":
+        L = rng.randint(0, max(0, w - 1))
+        return place(rng, L, rng.randint(0, L)), "short"
+    if kind == "exact_len":
+        return win, "len=w:%+d" % delta
+    if kind == "one_more":
+        return win + [rng.random() < 0.5], "len=w+1:%+d" % delta
+    if kind == "first":
+        return win + bg(rng.randint(1, w + 3)), "first:%+d" % delta
+    if kind == "last_accepted":
+        return bg(rng.randint(0, w + 3)) + win + [rng.random() < 0.5], "last_accepted:%+d" % delta
+    if kind == "last_excluded":
+        return bg(rng.randint(0, w + 3)) + win, "last_excluded:%+d" % delta
+    if kind == "middle":
+        return bg(rng.randint(0, w + 3)) + win + bg(rng.randint(1, w + 3)), "middle:%+d" % delta
+    win2 = place(rng, w, max(0, min(w, c + rng.choice([-1, 0]))), rng.random() < 0.3)
+    return bg(rng.randint(0, 4)) + win + bg(rng.randint(0, 3)) + win2 + bg(rng.randint(0, 3)), "two:%+d" % delta
+
+
+def flags_to_seq(rng, flags, base="A", mode="upper"):
+    """render flags as bases: set = `base`; unset = another base; `mode`: upper / lower (everything lower case) /
+    mixed (random case per base) / n (unset bases are N)"""
+    other = [b for b in "ACGT" if b != base]
+    out = []
+    for f in flags:
+        ch = base if f else ("N" if mode == "n" else rng.choice(other))
+        if mode == "lower" or (mode == "mixed" and rng.random() < 0.5):
+            ch = ch.lower()
+        out.append(ch)
+    return "".join(out)
+
+
+def boundary_tail_read(rng, w, num, den):
+    """(seq, cigar, from, to, chk, tag) for find_polya_tail: the checked sequence seq[max(0, end-from) : min(n, end+to+1)]
+    (end = start of the soft-clipped tail) is a `threshold_flags` list; body before it is random; the aligned part
+    carries an indel now and then; sometimes the whole read is shorter than the window"""
+    c = w * num // den
+    flags, tag = threshold_flags(rng, w, c)
+    R = len(flags)
+    if R == 0:
+        flags, R = [False], 1
+    mode = rng.choice(["upper", "upper", "lower", "mixed", "n"])
+    # split the region between aligned part (frm bases) and clip (to+1 bases)
+    in_clip = rng.randint(0, R)
+    aligned_part = R - in_clip
+    extra_body = rng.choice([0, 0, rng.randint(1, 30)])          # aligned bases before the region
+    extra_clip = rng.choice([0, 0, rng.randint(1, 10)]) if in_clip else 0   # clipped bases after the region
+    if aligned_part + extra_body == 0:
+        extra_body = 1
+    frm = aligned_part if extra_body else rng.choice([aligned_part, aligned_part + rng.randint(0, 5)])
+    to = in_clip - 1 if extra_clip else rng.choice([in_clip - 1, in_clip - 1 + rng.randint(0, 5)])
+    to = max(0, to)                # to_pos >= 0: with an empty clip no base exists beyond the aligned part
+    body = "".join(rng.choice("CGT") for _ in range(extra_body))
+    seq = body + flags_to_seq(rng, flags, "A", mode) + "".join(rng.choice("ACGT") for _ in range(extra_clip))
+    nal = extra_body + aligned_part
+    cig = []
+    if nal >= 4 and rng.random() < 0.3:
+        a = rng.randint(1, nal - 2)
+        if rng.random() < 0.5:
+            il = rng.randint(1, min(3, nal - a - 1))
+            cig += [[M, a], [I, il], [M, nal - a - il]]
+        else:
+            cig += [[M, a], [rng.choice([D, N]), rng.randint(1, 30)], [M, nal - a]]
+    else:
+        cig.append([M, nal])
+    if in_clip + extra_clip:
+        cig.append([S, in_clip + extra_clip])
+        if rng.random() < 0.15:
+            cig.append([H, rng.randint(1, 5)])
+    return seq, cig, frm, to, rng.random() < 0.5, tag + ":" + mode
+
+
+def boundary_head_read(rng, w, num, den):
+    """mirror image for find_polyt_head: checked sequence = reverse of seq[max(0, clip-to) : min(n, clip+from+1)],
+    looked at for T"""
+    seq, cig, frm, to, chk, tag = boundary_tail_read(rng, w, num, den)
+    seq = revcomp(seq)
+    cig = [list(x) for x in reversed(cig)]
+    # find_polyt_head reads `to` clipped bases and `from + 1` aligned bases; find_polya_tail reads `to + 1` and `from`
+    return seq, cig, max(0, frm - 1), to + 1, chk, tag
